@@ -293,6 +293,10 @@ func (j *Job) evaluateClusterStatus() {
 func (j *Job) start() error {
 	j.log.Info("starting")
 
+	// A checkpoint that was in progress on the previous assembly can't complete
+	// anymore. Drop it so that checkpointing can resume on this assembly.
+	j.snapshotStore.AbandonPendingCheckpoint()
+
 	// Get the job's current checkpoint which may be nil
 	ckpt := j.snapshotStore.CurrentCheckpoint()
 
